@@ -53,8 +53,87 @@ def parse(path):
     return structs, enums, reg, ifaces
 
 
+def bl(name):
+    """identifier -> Coq `list N` of its bytes"""
+    return "[" + "; ".join(str(b) for b in name.encode()) + "]"
+
+
+def bare(name):
+    """pkg.Name -> Name"""
+    return name.split(".", 1)[1] if "." in name else name
+
+
+def consts_path(path_txt):
+    return os.path.join(os.path.dirname(os.path.abspath(path_txt)), "consts.txt")
+
+
+def run_consts(path_txt):
+    """second translator (harness/root/cmd/tl/consts.go): Go SOURCE of <repo>/telegram -> typed integer
+    constants and declared interfaces; reflection over *telegram.Client -> interfaces that occur only as
+    method results and which struct implements which interface.  Written beside registry.txt."""
+    out = consts_path(path_txt)
+    hb = C.BIN + "/h_root_cmd_tl"
+    if os.path.exists(out):
+        os.unlink(out)
+    rc, o = C.sh([hb, "consts", C.REPO + "/telegram", out], timeout=300)
+    if rc != 0 or not os.path.exists(out):
+        raise C.BuildError("constant/interface translator (%s consts %s/telegram) failed: %s" % (hb, C.REPO, o[-2000:]))
+    return parse_consts(out)
+
+
+def parse_consts(path):
+    """-> dict(consts=[(type, name, value)], srcifaces=[(name, [methods])], rifaces=[(id, pkg.Name)], rimpl={tid: (name, [ids])})"""
+    r = {"consts": [], "srcifaces": [], "rifaces": [], "rimpl": {}}
+    for line in open(path):
+        f = line.rstrip("\n").split("\t")
+        if f[0] == "const":
+            r["consts"].append((f[1], f[2], int(f[3])))
+        elif f[0] == "srciface":
+            r["srcifaces"].append((f[1], f[2].split(",")))
+        elif f[0] == "riface":
+            r["rifaces"].append((int(f[1]), f[2]))
+        elif f[0] == "rimpl":
+            r["rimpl"][int(f[1])] = (f[2], [int(x) for x in f[3].split(",")] if len(f) > 3 and f[3] else [])
+    return r
+
+
+def translator_disagreements(structs, ifaces, cs):
+    """the two translators describe one tree: where they overlap they must say the same thing"""
+    bad = []
+    if [(i, n) for (i, n) in cs["rifaces"][:len(ifaces)]] != list(ifaces):
+        bad.append("interface ids of `registry` and `consts` differ")
+    n = len(ifaces)
+    for s in structs:
+        nm, ids = cs["rimpl"].get(s["tid"], (None, []))
+        want = [] if s["impls"] == "-" else [int(x) for x in s["impls"].split(",")]
+        if nm != s["name"] or [i for i in ids if i < n] != want:
+            bad.append("struct %d %s: registry says implements %s, consts says %s %s" % (s["tid"], s["name"], want, nm, ids))
+    return bad
+
+
+def fingerprint(path_txt):
+    """identifies the translator output a Registry.v was written from: coq/gen is shared by every run
+    (also by runs against other trees), so a check that reads a Coq result can tell whether the
+    Registry.v that was compiled is the one it wrote"""
+    import hashlib
+    h = hashlib.sha1()
+    for p in (path_txt, consts_path(path_txt)):
+        h.update(open(p, "rb").read())
+    return int(h.hexdigest()[:15], 16)
+
+
+def wrapper_tids(structs):
+    """hand-written request wrappers as the translator selects them: struct types of package telegram
+    with a CRC() method that are not registered"""
+    return [s["tid"] for s in structs if s["flags"].startswith("u") and s["name"].startswith("telegram.")]
+
+
 def write_registry_v(path_txt):
     structs, enums, reg, ifaces = parse(path_txt)
+    cs = run_consts(path_txt)
+    dis = translator_disagreements(structs, ifaces, cs)
+    if dis:
+        raise C.BuildError("registry translator and constant/interface translator disagree: " + "; ".join(dis[:5]))
     out = ["(* generated by the registry translator (harness/root/tlh) from the current tree - do not edit *)",
            "From Coq Require Import NArith List.", "From MTV Require Import TL.Types.", "Import ListNotations.",
            "Open Scope N_scope.", "", "Definition shipped_structs : list sdesc := ["]
@@ -99,8 +178,39 @@ def write_registry_v(path_txt):
     out.append("Definition shipped_exceptions : list N := [%s]." % "; ".join(str(x) for x in exc))
     out.append("Definition shipped_nregistered : N := %d." % len(reg))
     # hand-written request wrappers: types with a CRC() method in package telegram that are not registered
-    wr = [s["tid"] for s in structs if s["flags"].startswith("u") and s["name"].startswith("telegram.")]
+    wr = wrapper_tids(structs)
     out.append("Definition shipped_wrappers : list N := [%s]." % "; ".join(str(x) for x in wr))
+    # ---- identifiers (C13): what the programmer reads ----
+    out.append("")
+    out.append("(* Go type name of every struct (package prefix dropped), same order as shipped_structs *)")
+    out.append("Definition shipped_struct_names : list (list N) := [")
+    out.append(";\n".join("  (* %d %s *) %s" % (s["tid"], s["name"], bl(bare(s["name"]))) for s in structs))
+    out.append("].")
+    out.append("")
+    enum_types = {bare(e["name"]) for e in enums if e["name"].startswith("telegram.")}
+    ec = [(n, v) for (t, n, v) in cs["consts"] if t in enum_types]
+    out.append("(* typed integer constants of package telegram whose type is a registered enum type, as the Go SOURCE names them: (identifier, value) *)")
+    out.append("Definition shipped_enum_consts : list (list N * N) := [")
+    out.append(";\n".join("  (* %s *) (%s, %d)" % (n, bl(n), v) for (n, v) in ec))
+    out.append("].")
+    out.append("")
+    out.append("(* interface types: ids below %d are the registry translator's (field types), the rest occur only as results of *telegram.Client methods *)" % len(ifaces))
+    out.append("Definition shipped_ifaces : list (list N) := [")
+    out.append(";\n".join("  (* %d %s *) %s" % (i, n, bl(bare(n))) for (i, n) in cs["rifaces"]))
+    out.append("].")
+    out.append("Definition shipped_nfield_ifaces : N := %d." % len(ifaces))
+    out.append("")
+    out.append("(* which of shipped_ifaces the pointer to each struct implements (reflect.Type.Implements), same order as shipped_structs *)")
+    out.append("Definition shipped_struct_ifaces : list (list N) := [")
+    out.append(";\n".join("  [" + "; ".join(str(i) for i in cs["rimpl"].get(s["tid"], (None, []))[1]) + "]" for s in structs))
+    out.append("].")
+    out.append("")
+    out.append("(* interface types DECLARED in the source of package telegram (with at least one method of their own) *)")
+    out.append("Definition shipped_src_ifaces : list (list N) := [")
+    out.append(";\n".join("  (* %s *) %s" % (n, bl(n)) for (n, _) in cs["srcifaces"]))
+    out.append("].")
+    out.append("")
+    out.append("Definition shipped_fingerprint : N := %d." % fingerprint(path_txt))
     txt = "\n".join(out) + "\n"
     p = C.COQ + "/gen/Registry.v"
     os.makedirs(C.COQ + "/gen", exist_ok=True)
